@@ -7,7 +7,8 @@ Line protocol for C15:
       the six grammar tokens of `CFG.parseGrammar` (plain rules of the ORDINARY nonterminals only),
       setNts `sym:setIndex,…` | `-`, exprs `e;e;…` | `_` in prefix notation with `.` between tokens
       (`A5` any, `F5` first, `L5` last, `P5` precede, `W5` follow, `U.x.y`, `I.x.y`, `C.x`, `R3` named set 3),
-      obs = indices of the observable sets
+      obs = indices of the observable sets; optional tenth token: lookahead nonterminals `sym:t+t,…` | `-`
+      (each also has its plain rule `sym → ε` among the rules)
     → `error` | `ok <terminals of obs[0]>;<…>` | `fail`
   nullable <nt> <nn> <rules> <inputs> <prec> <ruleprec>      → nullable nonterminals | `fail`
   judge <answer…> :: <case…>   → `holds` | `violates: set <i> differs at terminal <t>` (the specification is
@@ -57,6 +58,18 @@ def parsePair (s : String) : Option (Nat × Nat) :=
 def parsePairs (s : String) : Option (List (Nat × Nat)) :=
   if s == "-" then some [] else (s.splitOn ",").mapM parsePair
 
+/-- lookahead nonterminals: `sym:t+t+…` separated by `,`; `-` for none -/
+def parseLa (s : String) : Option (Nat × List Nat) :=
+  match s.splitOn ":" with
+  | [a, b] => do
+    let a ← parseNat? a
+    let ts ← (b.splitOn "+").mapM parseNat?
+    some (a, ts)
+  | _ => none
+
+def parseLas (s : String) : Option (List (Nat × List Nat)) :=
+  if s == "-" then some [] else (s.splitOn ",").mapM parseLa
+
 def showRes (obs : List Nat) : Res → String
   | .error => "error"
   | .fail => "fail"
@@ -70,7 +83,14 @@ def parseCase (toks : List String) : Option (SG × List Nat) :=
     let sn ← parsePairs setNts
     let es ← parseExprs exprs
     let obs ← parseNats obs
-    some (⟨g, sn, es⟩, obs)
+    some (⟨g, sn, es, []⟩, obs)
+  | [nt, nn, rules, inputs, prec, rp, setNts, exprs, obs, las] => do
+    let g ← parseGrammar [nt, nn, rules, inputs, prec, rp]
+    let sn ← parsePairs setNts
+    let es ← parseExprs exprs
+    let obs ← parseNats obs
+    let las ← parseLas las
+    some (⟨g, sn, es, las⟩, obs)
   | _ => none
 
 def firstDiff (a b : List Nat) : Option Nat :=
